@@ -32,8 +32,12 @@
 (* Every such state is one replay case; TLC prints it with the expected    *)
 (* file (Emit).                                                            *)
 (*                                                                         *)
-(* FixF13 / FixF12 / FixV0 = FALSE model the code as it was at the pinned  *)
-(* commit (see *_asis.cfg); TRUE = the documented behaviour.               *)
+(* The jq option of a kubernetes binding is "none" or "any" (a filter is    *)
+(* set; filterResult = Proj(object), instantiated by the harness with a    *)
+(* catalogue of concrete filters); "object" / "scalar" are used only by    *)
+(* the as-it-was model.  FixF13 / FixF12 / FixV0 = FALSE model the code as *)
+(* it was at the pinned commit (MC_asis_f13/f12/v0.cfg: TLC finds the      *)
+(* three defects); TRUE = the documented behaviour.                        *)
 (***************************************************************************)
 EXTENDS Integers, Sequences, FiniteSets, TLC, Json
 
